@@ -136,13 +136,36 @@ def run(ck):
                         kinds.append("Count: depends on first_patch and n")
                     else:
                         bad.append("Count goal resolved as %s (depends on first_patch: %s, on n: %s)" % (df.show(ex, 120), uses_first, uses_n))
+                elif arm == ["UpTo"]:
+                    # the index found by position() must live in the index space of the slice that is cut afterwards:
+                    # searched slice == sliced slice, or the offset of the searched sub-slice is added back
+                    from .. import ranges
+                    an = ranges.Analyzer(prog)
+                    base_path = an.cpath(cmd_push, t["args"][0]["pl"], None) if t["args"][0].get("k") in ("copy", "move") else None
+                    pos = [(b2, t2) for b2, t2 in cmd_push.calls() if (callee_of(t2).get("rpath") or "").endswith("Iterator>::position")
+                           and t2["dest"]["l"] in df.trace_locals(cmd_push, [dd[3]["lhs"]["l"]] if dd[0] == "stmt" else [dd[2]["dest"]["l"]])]
+                    if not pos:
+                        kinds.append("UpTo: %s" % df.show(ex, 60))
+                    for b2, t2 in pos:
+                        sp = an.slice_of_iter(cmd_push, t2["args"][0], None)
+                        same = sp is not None and base_path is not None and sp == base_path
+                        offset_added = False
+                        if not same and sp is not None:
+                            # sub-slice produced by split_at(base, a) / base[a..]: accept when `a` is added to the index
+                            offset_added = lo[1] in locs and df.mentions(ex, lambda x: isinstance(x, tuple) and x[0] == "bin" and x[1].startswith("Add") and
+                                                                         any(y == lo for y in x[2:4]))
+                        if same or offset_added:
+                            kinds.append("UpTo: position in the sliced series + 1")
+                        else:
+                            bad.append("the goal patch is searched in %s but its index is used in %s without adding the offset back: "
+                                       "after a partial push `push <name>` stops at the wrong patch" % (sp, base_path))
                 elif len(arm) == 1:
                     kinds.append("%s: %s" % (arm[0], df.show(ex, 60)))
                 else:
                     bad.append("upper bound assigned outside the goal match: %s" % df.show(ex, 100))
             ok_hi = not bad and any(k.startswith("Count") for k in kinds)
             hdetail = "; ".join(bad) if bad else str(kinds)
-        ck.require(ok_hi, "C09-R2", "upper bound of a Count goal is relative to the applied count", "last_patch: %s" % hdetail, cmd_push.where(t), ok_detail=hdetail)
+        ck.require(ok_hi, "C09-R2", "upper bound of Count / UpTo goals lives in the index space of the series", "last_patch: %s" % hdetail, cmd_push.where(t), ok_detail=hdetail)
     # the UpTo goal refuses an already applied patch: comparison index < first_patch guards an Err return
     # (checked as part of C17-R2)
 
